@@ -18,7 +18,9 @@ RULE = (
     "through the named Options fields and results read through named accessors; one evaluation = one generated function "
     "result (model, process_jacobian, control_jacobian, covariance, sensor model/jacobian/covariance) compared entry by "
     "entry with the reference interpreter / configured noise. CSE on for all, off for all in thorough and every third in "
-    "quick. distinct = distinct (definition, CSE) pairs; non-trivial = >= 2 input symbols."
+    "quick. Also a block-size sweep (generated blocks of 1..64 statements; rows with more temporaries than statements), the "
+    "3-output CSE programs with the most temporaries, and definitions whose symbols carry sympy assumptions. "
+    "distinct = distinct (definition, CSE) pairs; non-trivial = >= 2 input symbols."
 )
 ASSUMPTIONS = [
     "the vendored Eigen stand-in is at least as permissive as Eigen 3.4 on the slice the generator emits (DESIGN 2.4)",
@@ -41,6 +43,12 @@ def cases(tier, seed):
     ops = [with_sensors(d) for d in space.family_ops("thorough" if tier == "thorough" else "quick") if len(d["state"]) == 2]
     cse = [with_sensors(d) for d in space.family_cse(tier) if len(d["state"]) == 2]
     defs.append(space.bind_def(5, 4, 3, order=1, sensors_shape=(3, 1), tag="-wide"))  # names x10 < x2, u10 < u2, K < c
+    # block-size sweep (n, n*n, n*k, m*n statements per generated block) and the 3-output programs with the most temporaries
+    big = space.family_sizes(tier) + [with_sensors(d) for d in space.family_cse(tier)
+                                      if any(t in d["name"] for t in ("chain5", "manytemps24", "ctl-only"))]
+    defs += big
+    # symbols declared with sympy assumptions (Symbol("x", real=True) is a different object from Symbol("x"))
+    defs += [space.assumed(defs[13]), space.assumed(defs[22], ["x", "w"])]
     if tier == "quick":
         special = [d for d in ops if any(t in d["name"] for t in ("atan-tan", "tan-atan", "log-exp", "sqrt-square", "div-by-", "inv-square",
                                                                    "reciprocal", "log-square", "log-prod", "log-neg")) and d not in ops[::3]]
